@@ -1092,6 +1092,10 @@ def expr_fn(
             if isinstance(ret2, str):
                 return ret2
             ret = fn(ret, ret2)
+            if isinstance(ret, str):
+                # "Divide by zero": an error, not an operand for the next
+                # operator ('1/0*2' repeated the message twice)
+                return ret
         unget_token(tok)
         return ret
 
@@ -1149,6 +1153,11 @@ def expr_fn(
     tok = get_token()
     ret = parse_expr(tok)
     if isinstance(ret, str):
+        if not ret.startswith("<strong"):
+            # the arithmetic errors ("Divide by zero", "sqrt of negative
+            # value") are error elements like the syntax errors, so that
+            # #iferror recognises them
+            ret = '<strong class="error">{}</strong>'.format(ret)
         return ret
     if tokidx < len(tokens):
         # something is left over ("1 2", "1,000", "2 pi", an unknown operator):
